@@ -19,6 +19,7 @@ EXPLANATION_ADDED = '(R5) during teardown the frames still buffered in the sourc
 EXPLANATION_ADDED2 = " (R6) the C03 rule set as a precondition of 'EOF only after all bytes'; R4 also requires poll_shutdown to reach the Finish-sending call. (R7) = C08.R10: a refused write is reported as BrokenPipe by every write entry point."
 EXPLANATION = EXPLANATION + " Added while testing against seeded changes: " + EXPLANATION_ADDED + EXPLANATION_ADDED2
 EXPLANATION = EXPLANATION + " Rounds 12-13: R5 also requires that a dispatch error does not end the wind-down's loop over the messages still buffered in the source."
+EXPLANATION = EXPLANATION + " Rounds 14-15: (R9) the reader's Some(frame) / None decision derives from the inbound queue's receive call alone (no constant None on another condition); (S9) the Finish / Push constructors are exact."
 ASSUMPTIONS = ["tokio mpsc: a receiver sees None only after all senders are dropped and the queue is drained",
                "frames travel in one FIFO (S1, checked under C02)"]
 NOT_DECIDED = "the cross-task timing clause 'only after every byte has been returned' (follows from FIFO + R2, trusted)"
